@@ -277,6 +277,47 @@ PROPS['C13'] = dict(
 )
 
 
+# ---------------------------------------------------------------- C12 (h_sched + tsan/helgrind passes)
+SHIM = _os.path.join(_B.VERIF, 'harness', 'sched', 'vf_sched_shim.h')
+T_SCHED = T('h_sched.cpp', 'prod', name='h_sched.prod', extra_src=['sched/vf_sched.c'], fitter_flags=['-include', SHIM])
+
+
+DSHIM = _os.path.join(_B.VERIF, 'harness', 'sched', 'vf_delay_shim.h')
+T_THR_TSAN = T('h_thr.cpp', 'tsan', name='h_thr.tsan', fitter_flags=['-include', DSHIM])
+T_THR_PLAIN = T('h_thr.cpp', 'plain-g', name='h_thr.plain-g', fitter_flags=['-include', DSHIM])
+
+
+def c12_passes(tier, sc):
+    ncfg, NP, NSH = 16, (6 if tier == 'thorough' else 2), (12 if tier == 'thorough' else 4)
+    ps = [Pass('sched', 'h_sched.prod', 'C12', int(ncfg * NP * NSH), chunk=1, stall_s=600)]
+    t = Pass('tsan', 'h_thr.tsan', 'C12thr', n(tier, 48, 600, sc), chunk=3, stall_s=600)
+    t.scan = 'tsan'
+    ps.append(t)
+    h = Pass('helgrind', 'h_thr.plain-g', 'C12thr', n(tier, 4, 24, sc), chunk=1, stall_s=1200, args=['--maxworkers', '3'],
+             wrapper=['valgrind', '--tool=helgrind', '-q', '--error-limit=no', '--history-level=approx', '--num-callers=12'])
+    h.scan = 'helgrind'
+    ps.append(h)
+    return ps
+
+
+PROPS['C12'] = dict(
+    level_text='The real walk_descents()/evaluate_descent() code runs under a user-level controlled scheduler substituted for its pthread calls at compile time: every '
+               'mutex / condition-variable / create / join / exit call is a scheduling point. Per configuration (1-5 workers x 2-7 trial steps, i.e. 1-7 blocks, incl. more workers than steps) '
+               'all schedules with at most 1 (quick) / 2 (thorough) preemptions and 2/3 deviations at blocking points are enumerated breadth-first, plus random-walk and PCT-style priority schedules with '
+               'injected spurious wake-ups. Deadlock is decided (no enabled thread), protocol errors (unlock by non-owner, wait without mutex, destroy with waiters, exit holding a mutex) are assertions, '
+               'and every schedule must return x, H1, residual and the return value bit-identical to the single-worker run. Real-thread passes under ThreadSanitizer and helgrind with injected delays complement it.',
+    level_note=NOTE_COMMON + '; exhaustive only up to the stated preemption bound; OpenBLAS/CHOLMOD internals are single-threaded by configuration',
+    technique='controlled (systematic + randomized) scheduler over the real synchronisation code + TSan/helgrind with delay injection',
+    targets=[T_SCHED, T_THR_TSAN, T_THR_PLAIN],
+    passes=c12_passes,
+    level='exploration',
+    rule='case = (configuration, problem seed, shard): shard 0 = bounded systematic enumeration of schedules by prefix replay, other shards = 120-400 random/PCT schedules; '
+         'distinct_nontrivial counts distinct executed schedules (hash of the full choice sequence) that ran to completion or to a decided deadlock',
+    assumptions=ASSUME_COMMON + ['scheduling granularity = pthread synchronisation calls; data accesses between them are serialised by the baton (data races are the business of the TSan/helgrind passes)'],
+    require={'any': {'distinct-schedules': 3000, 'systematic-explorations-complete': 4, 'configurations': 16, 'schedules:pct': 500}},
+)
+
+
 def all_targets():
     seen, out = set(), []
     for p in PROPS.values():
